@@ -124,10 +124,10 @@ def suites(tier, seed):
         hs.append(Harness(n, unwind=max(40, sum(shape) + 10), timeout=1200, site="onetimeauth incremental" + (" (object)" if obj else ""),
                           desc="Poly1305 fed as pieces %s: blocks() transcript == that of the concatenated message" % (list(shape),), bounds={"pieces": list(shape)}))
     # ---- HMAC and SHA-512 (sha2's own buffering; dryoc forwards the pieces)
-    for shape in ([(3, 2), (100, 12, 0)] if tier == "quick" else [(3, 2), (100, 12, 0), (0, 0), (111, 1), (128, 1), (1, 127)]):
+    for shape in ([(3, 2), (40, 9, 0)] if tier == "quick" else [(3, 2), (40, 9, 0), (100, 12, 0), (0, 0), (111, 1), (128, 1), (1, 127)]):
         n = "c08_hmac_%s" % shp(shape)
         src += c07.h_hmac(n, sum(shape), call=hmac_call(shape))
-        hs.append(Harness(n, unwind=max(132, sum(shape) + 10), timeout=2400, site="crypto_auth incremental", desc="HMAC-SHA-512-256 fed as pieces %s" % (list(shape),), bounds={"pieces": list(shape)}))
+        hs.append(Harness(n, unwind=max(132, sum(shape) + 10), timeout=3000, mem_gb=(28 if sum(shape) >= 112 else 12), site="crypto_auth incremental", desc="HMAC-SHA-512-256 fed as pieces %s" % (list(shape),), bounds={"pieces": list(shape)}))
     for shape in ([(0, 0), (5, 0, 7), (111, 1, 16)] if tier == "quick" else [(0, 0), (5, 0, 7), (111, 1, 16), (128, 1), (127, 1, 0), (1, 1, 1), (112, 16)]):
         n = "c08_sha512_%s" % shp(shape)
         src += h_sha512(n, shape)
